@@ -22,6 +22,17 @@ func Init() error {
 	return nil
 }
 
+// InitNoLibrary is Init without any call into the library under test.
+func InitNoLibrary() error {
+	if err := alpha.GuardLayoutOnly(); err != nil {
+		return fmt.Errorf("layout guard: %v", err)
+	}
+	if err := ref.SelfTest(); err != nil {
+		return err
+	}
+	return CheckAlphabetClosed()
+}
+
 var scalarMultOps = []string{"Point.ScalarBaseMult", "Point.ScalarMult", "Point.VarTimeDoubleScalarBaseMult", "Point.MultiScalarMult", "Point.VarTimeMultiScalarMult"}
 
 func opsOf(pred func(o *OpDesc) bool) []string {
